@@ -23,10 +23,10 @@ pub fn text_findings(data: &[u8]) -> Vec<Finding> {
     // rejected by the reference and (C03 passes =>) by the parser: the other three oracles have nothing
     // to say about a rejected text; skip their three extra parses
     if crate::refparse::parse(&text).is_err() {
-        return match props::text::check_parse(&text, None) {
-            Verdict::Fail(sig, detail) => vec![("C03".to_string(), sig, detail)],
-            Verdict::Pass => vec![],
-        };
+        if let Verdict::Pass = props::text::check_parse(&text, None) {
+            return vec![];
+        }
+        // disagreement: the parser may have accepted the text, so the later stages still count (C06)
     }
     let checks: [(&str, Verdict); 4] = [
         ("C03", props::text::check_parse(&text, None)),
@@ -150,6 +150,372 @@ fn decode_c11(r: &mut Rd) -> props::c11::StepCase {
         });
     }
     props::c11::StepCase { prog: raw_prog(&image), fill: props::c05::Fill::Nops, inp: [2, 2, 2, 2], stack, limit, int_prelude, ops }
+}
+
+
+// ---------------------------------------------------------------------------------------------
+// token-level decoder for the text properties (fuzz target fz_tokens)
+
+const MNEMONICS: [&str; 61] = [
+    ".ORG", ".BYTE", ".DB", ".DW", ".EQU", "*STACKSIZE", "*PROGRAMSIZE", "CLR", "ADD", "ADC", "SUB", "MUL", "DIV", "INC", "DEC", "NEG",
+    "AND", "OR", "XOR", "COM", "BITS", "BITC", "TST", "CMP", "BITT", "LSR", "ASR", "LSL", "RRC", "RLC", "MOV", "LD", "ST", "PUSH", "POP",
+    "PUSHF", "POPF", "LDSP", "LDFR", "JMP", "JCS", "JCC", "JZS", "JZC", "JNS", "JNC", "JR", "CALL", "RET", "RETI", "STOP", "NOP", "EI", "DI",
+    "NOSET", "AUTO", "16", "32", "48", "64", "0",
+];
+// 24 names the grammar allows (with case-colliding groups) and 8 it does not (a label may not begin with R, PC or SP)
+const NAMES: [&str; 32] = [
+    "a", "A", "loop", "LOOP", "Loop", "_x", "x_1", "end", "ENDE", "nowhere", "L9", "P", "S", "p", "s_p", "pR0", "q", "Q", "z9", "_", "__", "x", "main", "isr",
+    "R", "RX", "r4", "PCX", "SPX", "SP", "sp_", "PC0",
+];
+fn pick_name(r: &mut Rd) -> &'static str {
+    let c = r.u8();
+    if c >= 240 {
+        NAMES[24 + (c as usize & 7)]
+    } else {
+        NAMES[c as usize % 24]
+    }
+}
+const REGS: [&str; 12] = ["R0", "R1", "R2", "R3", "PC", "r0", "r1", "r2", "r3", "pc", "SP", "R4"]; // the first nine are registers
+const EDGE_NUMS: [&str; 22] = [
+    "0", "00", "255", "256", "0255", "0xFF", "0x100", "0xff", "0x0FF", "0b11111111", "0b100000000", "65535", "65536", "0xFFFF", "0x10000",
+    "0b1111111111111111", "0b10000000000000000", "240", "239", "241", "0x", "0b",
+];
+
+fn case_of(s: &str, mode: u8, bits: u32) -> String {
+    match mode % 3 {
+        0 => s.to_string(),
+        1 => s.to_ascii_lowercase(),
+        _ => s.chars().enumerate().map(|(i, ch)| if bits >> (i % 32) & 1 == 1 { ch.to_ascii_lowercase() } else { ch.to_ascii_uppercase() }).collect(),
+    }
+}
+
+/// bytes -> program text, line by line.  Most lines are instruction templates whose operands are
+/// decoded from the following bytes (valid with high probability, each operand deviating into a
+/// near-miss with probability 1/16); some lines are free token sequences.  Names that are
+/// referenced but never defined get a definition appended unless the header byte says otherwise,
+/// so that a good share of the texts is accepted and reaches the assembler oracles.  The decoder
+/// is total and has no notion of validity: the oracles decide.
+pub fn token_text(data: &[u8]) -> String {
+    let mut r = Rd { d: data, p: 0 };
+    let mut s = String::new();
+    let h = r.u8();
+    match h % 32 {
+        0 => {}
+        1 => s.push_str("#! mrasm "),
+        2 => s.push_str("#! mrasm ; c\n"),
+        3 => s.push_str("#!mrasm\n"),
+        4 => s.push_str("#! mrasm\r\n"),
+        5 => s.push_str("#! mrasm;\n"),
+        6 => s.push_str("#! MRASM\n"),
+        7 => s.push_str("#! mrasm \n"),
+        8 => s.push_str("#! mrasm  \n"),
+        9 => s.push_str("#! mrasm\t\n"),
+        10 => s.push_str("#! mrasm \t; c\n"),
+        11 => s.push_str("#! mrasm ;c"),
+        _ => s.push_str("#! mrasm\n"),
+    }
+    let fixup = h / 32 != 7;
+    let eol = match h / 32 % 4 {
+        3 => "\r\n",
+        _ => "\n",
+    };
+    let mut referenced: Vec<String> = vec![];
+    let mut defined: Vec<String> = vec![];
+    let mut first = true;
+    while !r.done() && s.len() < 6000 {
+        if !first {
+            s.push_str(eol);
+        }
+        first = false;
+        let k = r.u8();
+        // optional indentation / label definition
+        if k & 0x80 != 0 {
+            s.push_str(if k & 0x40 != 0 { "\t" } else { "  " });
+        }
+        let sel = k % 32;
+        if sel == 31 {
+            let n = pick_name(&mut r);
+            defined.push(n.to_ascii_lowercase());
+            s.push_str(n);
+            s.push(':');
+            continue;
+        }
+        line(&mut r, &mut s, sel, &mut referenced, &mut defined);
+        if k & 0x20 != 0 && sel < 28 {
+            s.push_str(" ;");
+            let n = r.u8() % 10;
+            for _ in 0..n {
+                let c = r.u8();
+                s.push(if c < 0x20 && c != b'\t' { ' ' } else if c < 0x7F { c as char } else { ['ä', 'é', '€', '日', '𝄞', '\u{85}', '\u{2028}', '\u{a0}'][(c & 7) as usize] });
+            }
+        }
+    }
+    if fixup {
+        for n in referenced {
+            if !defined.contains(&n) {
+                defined.push(n.clone());
+                s.push_str(eol);
+                s.push_str(&n);
+                s.push(':');
+            }
+        }
+    }
+    s
+}
+
+fn mnem(r: &mut Rd, m: &str) -> String {
+    let c = r.u8();
+    let m = if c >= 250 { MNEMONICS[(c as usize * 7) % MNEMONICS.len()] } else { m };
+    let sep = match c % 5 {
+        0 => "\t",
+        1 => "  ",
+        _ => " ",
+    };
+    format!("{}{}", case_of(m, c / 5, 0x5A5A_A5A5 ^ (c as u32 * 0x0101_0101)), sep)
+}
+fn reg(r: &mut Rd) -> String {
+    let c = r.u8();
+    if c >= 248 {
+        ["SP", "R4", "R", "PC0", "(R0)", "R00", "", "3", "R10", "RO", "sp", "Pc", "pc", "pC", "r", "R-1"][(r.u8() % 16) as usize].to_string()
+    } else {
+        REGS[(c % 9) as usize].to_string()
+    }
+}
+fn number(r: &mut Rd, wide: bool) -> String {
+    let c = r.u8();
+    if c >= 246 {
+        return EDGE_NUMS[(r.u8() as usize) % EDGE_NUMS.len()].to_string();
+    }
+    let v: u32 = if wide { r.u8() as u32 | (r.u8() as u32) << 8 } else { r.u8() as u32 };
+    let z = if c & 0x10 != 0 { "0".repeat((r.u8() % 20) as usize) } else { String::new() };
+    // leading zeros are accepted in every radix; the value is what counts
+    match c % 3 {
+        0 => format!("{}{}", z, v),
+        1 => {
+            let hx = format!("{:x}", v);
+            format!("0x{}{}", z, if c & 0x20 != 0 { hx.to_uppercase() } else { hx })
+        }
+        _ => format!("0b{}{:b}", z, v),
+    }
+}
+fn name(r: &mut Rd, refs: &mut Vec<String>) -> String {
+    let n = pick_name(r);
+    refs.push(n.to_ascii_lowercase());
+    n.to_string()
+}
+fn constant(r: &mut Rd, refs: &mut Vec<String>) -> String {
+    if r.u8() % 4 == 0 {
+        name(r, refs)
+    } else {
+        number(r, false)
+    }
+}
+fn mem(r: &mut Rd, refs: &mut Vec<String>) -> String {
+    let c = r.u8();
+    match c % 8 {
+        0 | 1 => format!("({})", reg(r)),
+        2 | 3 | 4 => format!("({})", constant(r, refs)),
+        5 => format!("({})", name(r, refs)),
+        6 => format!("({})", number(r, false)),
+        _ if c < 192 => format!("({})", reg(r)),
+        _ => match c / 8 % 8 {
+            0 => format!("( {})", reg(r)),
+            1 => format!("({}", reg(r)),
+            2 => format!("{})", reg(r)),
+            3 => "()".to_string(),
+            4 => format!("({}+", reg(r)),
+            5 => format!("(({}))", reg(r)),
+            6 => format!("({})", number(r, true)),
+            _ => format!("({})", reg(r)),
+        },
+    }
+}
+fn dst(r: &mut Rd, refs: &mut Vec<String>) -> String {
+    let c = r.u8();
+    match c % 8 {
+        0 | 1 => reg(r),
+        2 => format!("({}+)", reg(r)),
+        3 => format!("(({}+))", reg(r)),
+        4 | 5 | 6 => mem(r, refs),
+        _ if c < 192 => reg(r),
+        _ => match c / 8 % 4 {
+            0 => number(r, false),
+            1 => name(r, refs),
+            2 => format!("(({}+)", reg(r)),
+            _ => format!("({}+))", reg(r)),
+        },
+    }
+}
+fn src(r: &mut Rd, refs: &mut Vec<String>) -> String {
+    let c = r.u8();
+    match c % 8 {
+        0 | 1 => reg(r),
+        2 => format!("({}+)", reg(r)),
+        3 => format!("(({}+))", reg(r)),
+        4 | 5 => mem(r, refs),
+        _ => constant(r, refs),
+    }
+}
+fn comma(r: &mut Rd) -> &'static str {
+    match r.u8() {
+        0..=120 => ", ",
+        121..=200 => ",",
+        201..=235 => ",  ",
+        236..=249 => ",\t",
+        250..=251 => " ,",
+        252 => " ",
+        253 => ",,",
+        _ => "",
+    }
+}
+
+fn line(r: &mut Rd, s: &mut String, sel: u8, refs: &mut Vec<String>, defined: &mut Vec<String>) {
+    let pick = |r: &mut Rd, v: &[&'static str]| v[(r.u8() as usize) % v.len()];
+    match sel {
+        0 | 1 => {
+            let m = pick(r, &["RET", "RETI", "STOP", "NOP", "EI", "DI", "PUSHF", "POPF"]);
+            s.push_str(mnem(r, m).trim_end());
+        }
+        2 | 3 => {
+            let m = pick(r, &["CLR", "INC", "NEG", "COM", "TST", "LSR", "ASR", "LSL", "RRC", "RLC", "PUSH", "POP"]);
+            let t = format!("{}{}", mnem(r, m), reg(r));
+            s.push_str(&t);
+        }
+        4 | 5 => {
+            let m = pick(r, &["ADD", "ADC", "SUB", "MUL", "DIV", "AND", "OR", "XOR"]);
+            let t = format!("{}{}{}{}", mnem(r, m), reg(r), comma(r), reg(r));
+            s.push_str(&t);
+        }
+        6..=9 => {
+            let m = pick(r, &["MOV", "CMP", "BITS", "BITC", "BITT"]);
+            let t = format!("{}{}{}{}", mnem(r, m), dst(r, refs), comma(r), src(r, refs));
+            s.push_str(&t);
+        }
+        10 | 11 => {
+            let m = pick(r, &["DEC", "LDSP", "LDFR"]);
+            let t = format!("{}{}", mnem(r, m), src(r, refs));
+            s.push_str(&t);
+        }
+        12 | 13 => {
+            let c = r.u8();
+            let t = if c & 1 == 0 { format!("{}{}{}{}", mnem(r, "LD"), reg(r), comma(r), constant(r, refs)) } else { format!("{}{}{}{}", mnem(r, "LD"), reg(r), comma(r), mem(r, refs)) };
+            s.push_str(&t);
+        }
+        14 => {
+            let t = format!("{}{}{}{}", mnem(r, "ST"), mem(r, refs), comma(r), reg(r));
+            s.push_str(&t);
+        }
+        15..=17 => {
+            let m = pick(r, &["JMP", "JR", "CALL", "JZS", "JZC", "JCS", "JCC", "JNS", "JNC"]);
+            let t = format!("{}{}", mnem(r, m), name(r, refs));
+            s.push_str(&t);
+        }
+        18 => {
+            let m = pick(r, &[".ORG", ".BYTE"]);
+            let t = format!("{}{}", mnem(r, m), number(r, false));
+            s.push_str(&t);
+        }
+        19 | 20 => {
+            let wide = sel == 20;
+            let mut t = format!("{}{}", mnem(r, if wide { ".DW" } else { ".DB" }), number(r, wide));
+            let n = r.u8();
+            let n = if n >= 250 { 40 + (n as usize - 250) * 20 } else { (n % 6) as usize };
+            for _ in 0..n {
+                t.push_str(comma(r));
+                t.push_str(&number(r, wide));
+            }
+            s.push_str(&t);
+        }
+        21 => {
+            let n = pick_name(r);
+            defined.push(n.to_ascii_lowercase());
+            let c = r.u8();
+            let v = if c >= 240 { number(r, false) } else { format!("{}", r.u8()) };
+            let t = format!("{}{}{}{}", mnem(r, ".EQU"), n, if c % 7 == 0 { "\t" } else { " " }, v);
+            s.push_str(&t);
+        }
+        22 => {
+            let v = pick(r, &["0", "16", "32", "48", "64", "NOSET", "noset", "NoSet", "8", "016", "0x10", "AUTO", "65", ""]);
+            let t = format!("{}{}", mnem(r, "*STACKSIZE"), v);
+            s.push_str(&t);
+        }
+        23 => {
+            let c = r.u8();
+            let v = match c % 8 {
+                0 => "AUTO".to_string(),
+                1 => "NOSET".to_string(),
+                2 => "auto".to_string(),
+                3 if c >= 128 => number(r, false),
+                _ => format!("{}", r.u8()),
+            };
+            let t = format!("{}{}", mnem(r, "*PROGRAMSIZE"), v);
+            s.push_str(&t);
+        }
+        24 => {
+            // run of one-byte instructions (pushes the image towards the size limits)
+            let n = r.u8();
+            let m = pick(r, &["NOP", "STOP", "EI", "DI", "RET", "RETI", "PUSHF", "POPF"]);
+            for i in 0..n {
+                if i > 0 {
+                    s.push('\n');
+                }
+                s.push_str(m);
+            }
+        }
+        25 => {
+            // label definition followed by an instruction on the same line
+            let n = pick_name(r);
+            defined.push(n.to_ascii_lowercase());
+            s.push_str(n);
+            // (a label and an instruction on one line is not mrasm: rare near-miss)
+            s.push_str(match r.u8() {
+                0..=120 => ":\n",
+                121..=200 => ": \n  ",
+                201..=235 => ":\t;x\n\t",
+                236..=245 => ": ",
+                246..=250 => ":",
+                _ => " :\n",
+            });
+            let sub = r.u8() % 24;
+            line(r, s, sub, refs, defined);
+        }
+        26 | 27 => {} // empty line (or comment only, see the caller)
+        _ => {
+            // free token sequence
+            let n = r.u8() % 8 + 1;
+            for _ in 0..n {
+                let k = r.u8();
+                let hi = k / 32;
+                match k % 32 {
+                    0..=5 => {
+                        let m = MNEMONICS[(r.u8() as usize) % MNEMONICS.len()];
+                        s.push_str(&case_of(m, hi, 0));
+                        s.push(if hi & 4 == 0 { ' ' } else { '\t' });
+                    }
+                    6..=8 => s.push_str(REGS[(hi as usize + 8 * (k as usize % 32 - 6)) % REGS.len()]),
+                    9..=11 => s.push_str(NAMES[(hi as usize + 8 * (k as usize % 32 - 9)) % NAMES.len()]),
+                    12..=14 => s.push_str(&number(r, hi & 1 == 1)),
+                    15 => s.push_str(EDGE_NUMS[(r.u8() as usize) % EDGE_NUMS.len()]),
+                    16 => s.push_str(if hi & 1 == 0 { "," } else { ", " }),
+                    17 | 18 => s.push_str(["(", ")", "+", "+)", "((", "))", "+))", ":"][hi as usize]),
+                    19 | 20 => s.push_str(if hi & 1 == 0 { " " } else { "\t" }),
+                    21 => s.push_str(["\n", "\r", "\r\n", "\n\t", ";", "; ", " ;", "#! mrasm"][hi as usize]),
+                    _ => {
+                        let c = r.u8();
+                        if c < 0x80 {
+                            s.push(c as char)
+                        } else {
+                            s.push(['ä', 'ß', '€', '日', '𝄞', '\u{85}', '\u{2028}', '\u{feff}'][(c & 7) as usize])
+                        }
+                    }
+                }
+            }
+        }
+    }
+}
+
+pub fn token_findings(data: &[u8]) -> Vec<Finding> {
+    text_findings(token_text(data).as_bytes())
 }
 
 /// first byte selects the property, the rest is decoded into its case type
